@@ -210,6 +210,18 @@ PROPS['C03'] = {
     'assumptions': ['blocks offered through AsRange::new/AddressRange::new with lower > upper are a caller error (not generated)'],
 }
 
+PROPS['C14'] = {
+    'level': 'proof',
+    'technique': 'Lean 4 theorems on a model of ManifestContent::take_from, FileAndHash::validate_file_name, skip_opt_in/take_opt_from, FileListIter and iter_uris over a DER TLV model (name grammar iff, skip/take parity, len = iterator count, join cannot fail) + differential check of the real decoder on manifests assembled by an independent DER encoder',
+    'claim': 'Lean 4 proofs: validate_file_name accepts exactly <[A-Za-z0-9_-]*>.<three letters>; skip_opt_in and take_opt_from decide identically, so for every decoded manifest the iterator yields exactly len() entries with legal names and never reaches its unwrap(); thisUpdate <= nextUpdate; Rsync::join of a legal name onto ANY rsync URI succeeds and yields base-directory ++ name with no slash in the name (so iter_uris cannot panic and stays directly inside the directory), and the result re-parses as a valid URI of the same module; hash verification is equality with the digest.',
+    'note': 'bcder (tag/length/primitive readers in DER mode, IA5String, BIT STRING) is modelled by Rpki/Model/Der.lean and the *_Take functions, tied to the real decoder by the correspondence run on every check; SHA-256 is a parameter of the theorem and an independent Lean implementation in the oracle. Extension length, character class shape, the presence of the name check at both call sites and of the time check are re-read from src/repository/manifest.rs on every run.',
+    'shards': {'quick': 4, 'thorough': 16},
+    'budget': {'quick': 600, 'thorough': 7200},
+    'rule': 'all names of length <= 3 (thorough 4) over {a,Z,0,-,_,.,/,NUL,~} as whole name and as stem; 6k (thorough 60k) random manifests: 0-200 (2000) entries, hostile names (.., ., a/b.cer, long names to 70000, single-character edits of good names, non-ASCII), hash lengths 0-64 with unused bits 0-9, UTCTime/GeneralizedTime, equal and inverted times, version present/wrong, wrong digest OID, trailing data, non-SEQUENCE list elements, wrong string types, TLV-boundary bit flips and truncation; 6 base URIs with and without trailing slash; hash verify on correct, bit-flipped, shortened, extended and random digests.',
+    'trusted_base': ['bcder DER reader as modelled in Rpki/Model/Der.lean (validated differentially)', 'aws-lc SHA-256 (compared with the Lean SHA-256 on every hash case)'],
+    'assumptions': ['the CMS envelope (SignedObject::decode_if_type) hands exactly the eContent octets to ManifestContent::take_from'],
+}
+
 NOT_APPLICABLE = {
 }
 for _i in range(1, 18):
